@@ -39,7 +39,8 @@ ASSUMPTIONS = ["the document's own prose defines no id attributes or '#...' link
 RULE = ("Markdown documents with 1-3 independent recipes (```new-recipe) of 1-3 blocks each; sub recipes with single and "
         "multiple outputs, adversarial output names (spaces, punctuation, quotes, < > &, non-ASCII, names made only of "
         "punctuation, embedded scaled numbers {n}, pairs that sanitise to the same id), references with every amount "
-        "form, across blocks, documents in which a later block of the same recipe re-defines an output name (must be "
+        "form, across blocks, statements that consist solely of a reference (root-level reference cells, in first and "
+        "later independent recipes, in the defining and in later blocks), documents in which a later block of the same recipe re-defines an output name (must be "
         "rejected, otherwise rendered and checked), names of 50-80 characters sharing their first 40+; rendered at scales 1, 2, 1/3, 0.5, "
         "2.5 and, for names holding scaled numbers, at numerically equal scales of different type one after the other "
         "in the same process (1.5 then 3/2, 1/2 then 0.5, ...); ids/hrefs extracted with html.parser. "
@@ -134,6 +135,40 @@ def gen_doc(rng: random.Random) -> str:
     return "\n".join(parts)
 
 
+PARTIAL = ["1/2 of the ", "50% of the ", "0.25 * ", "100g ", "2 tsp of ", "{2 bags} of "]
+REST = ["rest of the ", "remaining ", "remainder of the ", "left over "]
+
+
+def gen_rootref_doc(rng: random.Random) -> str:
+    """Recipes containing statements that consist SOLELY of a reference (`remaining pastry` on a line of its own):
+    the root of that recipe tree is the reference cell.  The referenced sub recipe is also used partially elsewhere,
+    so nothing is inlined.  In the first and in later independent recipes, in the defining block and in later blocks,
+    for single- and multi-output sub recipes."""
+    parts = ["# Title for 2\n"]
+    for ri in range(rng.choice((1, 2, 3))):
+        single = quote(rand_name(rng)) if rng.random() < 0.6 else rng.choice(["stock", "pastry", "a b"])
+        m1, m2 = quote(rand_name(rng)), quote(rand_name(rng))
+        if len({single, m1, m2}) < 3:
+            m1, m2 = "left", "right"
+        b1 = [f"{single} := boil(ing{ri}a)", f"soup({rng.choice(PARTIAL)}{single}, ing{ri}b)"]
+        if rng.random() < 0.6:
+            b1.append(rng.choice(PARTIAL + REST) + single)                       # same block
+        b2 = [f"{m1}, {m2} := split(ing{ri}c)", f"mix({rng.choice(PARTIAL)}{m1}, ing{ri}d)", rng.choice(REST) + m1]
+        if rng.random() < 0.5:
+            b2.append(rng.choice(PARTIAL) + m2)
+        b3 = [rng.choice(REST + PARTIAL) + single]                                # later block, a block of its own
+        if rng.random() < 0.5:
+            b3.append(rng.choice(PARTIAL) + m2)
+        blocks = [b1, b2, b3]
+        if rng.random() < 0.3:
+            blocks = [b1 + b2, b3]
+        for bi, b in enumerate(blocks):
+            fence = "new-recipe" if (bi == 0 and ri > 0) else "recipe"
+            parts.append(f"```{fence}\n" + "\n".join(b) + "\n```\n")
+            parts.append(rng.choice(["", "Some prose.\n"]))
+    return "\n".join(parts)
+
+
 def gen_redefine_doc(rng: random.Random) -> str:
     """One recipe over 2-3 blocks in which a LATER block defines an output name that an earlier block already
     defined (and references it).  The compiler must reject such a document (NameRedefinedError: trivially fine); a
@@ -172,6 +207,9 @@ HAND_DOCS = [
     "fry(rest of the \"slow roasted tomato and basil sauce for the lasagne layers one\", "
     "rest of the \"slow roasted tomato and basil sauce for the lasagne layers two\")\n```\n",
 ]
+HAND_DOCS.append("```recipe\nstock := boil(bones)\nsoup(1/2 of the stock, leek)\nremaining stock\n```\n\n```recipe\n\"a b\" := x\n"
+                 "fry(1/2 of the a b)\n```\n\n```recipe\nrest of the a b\n```\n\n```new-recipe\np, q := split(z)\n"
+                 "mix(1/2 of the p, q)\nremaining p\n```\n")
 # numerically equal scales of different type, rendered one after the other in the same process
 SCALE_PAIRS: List[Tuple[Any, Any]] = [(1.5, Fraction(3, 2)), (Fraction(1, 2), 0.5), (2.0, 2), (3, 3.0), (0.25, Fraction(1, 4))]
 
@@ -326,6 +364,10 @@ def ids_case(inp: Dict[str, Any]) -> Optional[Case]:
         tags.append("ids:collision")
     if inp.get("before") is not None:
         tags.append("ids:after-equal-scale")
+    import recipe_grid.recipe as _R
+    if any(isinstance(tr, _R.Reference) for rs in scaled for r in rs for tr in r.recipe_trees):
+        tags.append("ids:root-reference" + ("-later-recipe" if any(
+            isinstance(tr, _R.Reference) for rs in scaled[1:] for r in rs for tr in r.recipe_trees) else ""))
     if any(len(i) > 50 for i, _ in ids):
         tags.append("ids:long-name")
     return Case(input={"suite": "ids", "doc": doc, "scale": inp["scale"], "before": inp.get("before")}, coq_in=page,
@@ -343,6 +385,7 @@ def suites(tier: str, seed: int) -> List[Suite]:
     ndocs = 120 if tier == "quick" else 1500
     docs = list(HAND_DOCS) + [gen_doc(rng) for _ in range(ndocs)]
     docs += [gen_redefine_doc(rng) for _ in range(20 if tier == "quick" else 200)]
+    docs += [gen_rootref_doc(rng) for _ in range(30 if tier == "quick" else 300)]
     seen = set()
     for d in docs:
         for sc in ([1, 2, Fraction(1, 3)] if d in HAND_DOCS else rng.sample(SCALES, 2)):
